@@ -91,12 +91,36 @@ let output_line (o : output) : string =
       Printf.sprintf "%s | ev %s | ls %s | g %s | c %s" (result_tok r)
         (String.concat " " evs) (String.concat " " lss) (nums o.o_granted) (nums o.o_cancelled)
 
+(* client-side memory for the cget -> cset cycle (`cgetr` remembers the version a client
+   read, `csetr` sends it back): driver glue, not part of the model *)
+let run_case (ops : string list) : output list =
+  let mem : (string * string, n) Hashtbl.t = Hashtbl.create 8 in
+  let rec go (s : core) (ops : string list) : output list =
+    match ops with
+    | [] -> []
+    | line :: rest ->
+        let t = Array.of_list (String.split_on_char ' ' line) in
+        let o =
+          match t.(0) with
+          | "cgetr" -> OCGet (str_of_tok t.(2))
+          | "csetr" ->
+              let ver = try Hashtbl.find mem (t.(1), t.(2)) with Not_found -> N0 in
+              OCSet (nn t.(1), str_of_tok t.(2), json_of_tok t.(3), ver, false)
+          | _ -> parse_op line in
+        let (s', out) = step s o in
+        (if t.(0) = "cgetr" then
+           match out.o_res with
+           | RCValue (_, ver) -> Hashtbl.replace mem (t.(1), t.(2)) ver
+           | _ -> Hashtbl.replace mem (t.(1), t.(2)) N0);
+        out :: (if is_crash out then [] else go s' rest) in
+  go init ops
+
 let () =
   let cases = read_cases Sys.argv.(1) in
   let oc = open_out Sys.argv.(2) in
   List.iter (fun (name, ops) ->
       Printf.fprintf oc "case %s\n" name;
-      let outs = run init (List.map parse_op ops) in
+      let outs = run_case ops in
       List.iter (fun o -> output_string oc (output_line o); output_char oc '\n') outs;
       output_string oc "end\n") cases;
   close_out oc
